@@ -20,7 +20,8 @@ class T2TSilicon(object):
         self.rollover = rollover
         self.page_locks = page_locks
         self.state_changes = 0
-        self.write_log = []          # (sector, page) of every accepted WRITE
+        self.write_log = []          # page of every accepted WRITE
+        self.write_units = []        # (byte address, length) of every accepted WRITE
         self.cmd_log = []
         self.field_off()
 
@@ -109,6 +110,7 @@ class T2TSilicon(object):
                     changed = True
                 self.mem[a] = new
             self.write_log.append(page)
+            self.write_units.append((page * 4, 4))
             self.state_changes += 1
             return b"\x0A"
         if len(data) == 2 and data[0] == 0xC2 and data[1] == 0xFF:
@@ -202,9 +204,9 @@ class T2TLayout(object):
         """byte addresses that belong to the NDEF message area (T, L, V, terminator...)"""
         return set(a for a in range(self.ndef_offset, self.end) if a not in self.reserved)
 
-    def header_ok(self):
+    def header_ok(self, lfield=4):
         """control TLVs and the NDEF T/L bytes must not sit on reserved bytes"""
-        for a in range(16, self.ndef_offset + 4):
+        for a in range(16, self.ndef_offset + lfield):
             if a in self.reserved:
                 return False
         return self.ndef_offset + 4 <= self.end
